@@ -2,6 +2,9 @@ package c19
 
 import (
 	"fmt"
+	"strconv"
+	"sync"
+	"sync/atomic"
 	"testing"
 	"testing/synctest"
 	"time"
@@ -105,6 +108,84 @@ func TestPropServiceTimeouts(t *testing.T) {
 		ev.Case(same || len(steps) >= 3, evid.Hash("service", initial, fmt.Sprint(steps)), "service-in-bubble")
 		if msg != "" {
 			rt.Fatalf("%s\ninitial %dms steps %+v", msg, initial, steps)
+		}
+	})
+}
+
+// TestPropConcurrentServiceTimeouts: free-running. Several clients call different resources
+// of one service (several workers) at the same moment; every handler announces its own
+// timeout duration a few hundred times and then replies. Each client must be told exactly
+// the durations its own handler announced, and get its own reply.
+func TestPropConcurrentServiceTimeouts(t *testing.T) {
+	rapid.Check(t, func(rt *rapid.T) {
+		workers := rapid.IntRange(2, 8).Draw(rt, "workers")
+		clients := rapid.IntRange(2, 8).Draw(rt, "clients")
+		rounds := rapid.IntRange(100, 400).Draw(rt, "rounds")
+		durs := make([]time.Duration, clients)
+		for i := range durs {
+			durs[i] = time.Duration(rapid.SampledFrom([]int{20000, 30001, 123456, 7000000, 99999, 1000000, 45678, 20500}).Draw(rt, "d")) * time.Millisecond
+		}
+		s := res.NewService("svc")
+		s.SetLogger(nil)
+		s.SetWorkerCount(workers)
+		need := int32(min(clients, workers))
+		var arrived atomic.Int32
+		gate := make(chan struct{})
+		s.Handle("m.$id", res.Call("do", func(r res.CallRequest) {
+			i, _ := strconv.Atoi(r.PathParam("id"))
+			if arrived.Add(1) == need {
+				close(gate)
+			}
+			<-gate // as many handlers as there are workers start announcing together
+			for k := 0; k < rounds; k++ {
+				r.Timeout(durs[i])
+			}
+			r.OK(i)
+		}))
+		conn := fakeconn.New()
+		conn.Blocking = true // nothing is dropped when a client's inbox channel is full
+		served := make(chan struct{})
+		s.SetOnServe(func(*res.Service) { close(served) })
+		exited := make(chan struct{})
+		go func() { _ = s.Serve(conn); close(exited) }()
+		<-served
+		msgs := make([]string, clients)
+		var wg sync.WaitGroup
+		for i := 0; i < clients; i++ {
+			wg.Add(1)
+			go func(i int) {
+				defer wg.Done()
+				var exts []time.Duration
+				r := resprot.SendRequest(conn, "call.svc.m."+strconv.Itoa(i)+".do", nil, 20*time.Second, func(d time.Duration) { exts = append(exts, d) })
+				var got int
+				if !r.HasResult() {
+					msgs[i] = fmt.Sprintf("client %d (handler announcing %v): no result: %+v (error %v)", i, durs[i], r, r.Error)
+					return
+				}
+				if err := r.ParseResult(&got); err != nil || got != i {
+					msgs[i] = fmt.Sprintf("client %d: got the result %s", i, r.Result)
+					return
+				}
+				if len(exts) != rounds {
+					msgs[i] = fmt.Sprintf("client %d: its handler announced %v %d times, the client was told %d extensions", i, durs[i], rounds, len(exts))
+					return
+				}
+				for _, d := range exts {
+					if d != durs[i] {
+						msgs[i] = fmt.Sprintf("client %d: its handler only ever announced %v, the client was told an extension of %v (other handlers announce %v at the same time)", i, durs[i], d, durs)
+						return
+					}
+				}
+			}(i)
+		}
+		wg.Wait()
+		_ = s.Shutdown()
+		<-exited
+		ev.Case(true, evid.Hash("conc-timeouts", workers, clients, rounds, fmt.Sprint(durs)), "service-concurrent-timeouts")
+		for _, m := range msgs {
+			if m != "" {
+				rt.Fatalf("%s", m)
+			}
 		}
 	})
 }
